@@ -149,7 +149,11 @@ def ensure_facts(verbose=True):
             if c not in libs:
                 raise ExtractError("expected workspace crate %s not in cargo metadata" % c)
         for f in os.listdir(FACTS):
-            os.unlink(os.path.join(FACTS, f))
+            p = os.path.join(FACTS, f)
+            if os.path.isdir(p):
+                shutil.rmtree(p, ignore_errors=True)
+            else:
+                os.unlink(p)
         _purge_fingerprints(packages)
         sysroot = nightly_sysroot()
         env = dict(os.environ)
